@@ -50,8 +50,13 @@ def inv_run(ctx, mode):
        mode 'step' : havoc the loop header, run one body iteration; returns ('back', vals) or ('exit', result)"""
     w = core.world(ctx.bdir, MODS); w.hooks = dict(w.base_hooks)
     f = w.funcs[INV]
-    header = [lab for lab in f.order if sum(1 for ins in f.blocks[lab] if ins.op == 'phi') == 4]
-    if len(header) != 1: raise Unsupported('Euclid loop header not identified (%d candidates)' % len(header))
+    pos = {lab: i for i, lab in enumerate(f.order)}
+    header = [lab for lab in f.order if sum(1 for ins in f.blocks[lab] if ins.op == 'phi') == 4
+              and any(pos.get(l, -1) >= pos[lab] for ins in f.blocks[lab] if ins.op == 'phi' for v, l in ins.inc)]
+    if len(header) != 1:
+        if mode != 'entry': raise Unsupported('Euclid loop header not identified (%d candidates)' % len(header))
+        header = [lab for lab in f.order if any(ins.op == 'phi' for ins in f.blocks[lab]) and any(pos.get(l, -1) >= pos[lab] for ins in f.blocks[lab] if ins.op == 'phi' for v, l in ins.inc)][:1]
+        if not header: raise Unsupported('no loop header in Goldilocks::inv')
     header = header[0]; phis = [ins.res for ins in f.blocks[header] if ins.op == 'phi']
     out = []
     a = core.bv64('a')
@@ -91,43 +96,72 @@ def ob_inv_refusal(ctx):
         if p.status == 'terminated' and p.result.kind == 'exit':
             nexit += 1
             r = smt.prove(lambda tr: tr.val(a) % P == 0, assumptions=list(p.pc), timeout=30)
-            if r.status != 'unsat': return viol('inv/refusal', 'inv exits for a non-zero operand a=%#x' % r.model.get('a', 0), replay=dict(a=r.model.get('a', 0), kind='exit')) if r.status == 'sat' else inconc(r.info)
-            if str(p.result.msg) not in ('4294967295', '-1', str(mask(32))): return viol('inv/exit-code', 'exit status %s' % p.result.msg, replay=dict(event='exit code'))
+            if r.status == 'sat':
+                x = r.model.get('a', 0); nr = native_inv_call(ctx, x)
+                if nr[0] != 'ok': return viol('inv/refusal', 'inv does not return for the non-zero operand a=%#x (native run: %s %s)' % (x, nr[0], nr[1]), replay=dict(a=x, kind='exit'))
+                return inconc('ENCODING-MISMATCH: exit path for a=%#x does not reproduce natively' % x)
+            if r.status != 'unsat': return inconc(r.info)
         elif p.status == 'ok':
             r = smt.prove(lambda tr: tr.val(a) % P != 0, assumptions=list(p.pc), timeout=30)
             if r.status == 'sat':
-                x = r.model.get('a', 0)
-                return viol('inv/returns-on-zero', 'inv returns a value for the zero operand a=%#x' % x, replay=dict(a=x, kind='returns'))
+                x = r.model.get('a', 0); nr = native_inv_call(ctx, x)
+                if nr[0] == 'ok': return viol('inv/returns-on-zero', 'inv returns a value (%#x) for the zero operand a=%#x' % (nr[1], x), replay=dict(a=x, kind='returns'))
+                return inconc('a zero operand reaches the loop in the model but the native call does not return (%s): refusal happens later than the checker expects' % (nr[0],))
             if r.status != 'unsat': return inconc(r.info)
         else: return viol('inv/event', 'inv: %s' % p.result, replay=dict(event=str(p.result)))
-    if nexit == 0: return viol('inv/no-refusal', 'no path refuses the zero operand', replay=dict(event='no exit path'))
+    if nexit == 0:
+        for x in (0, P):
+            nr = native_inv_call(ctx, x)
+            if nr[0] == 'ok': return viol('inv/returns-on-zero', 'inv returns a value (%#x) for the zero operand a=%#x' % (nr[1], x), replay=dict(a=x, kind='returns'))
+        return inconc('no exit path found before the loop although the native calls inv(0), inv(p) do not return')
     return ok('%d paths: exit(-1) exactly for a ≡ 0 (a = 0 and a = p)' % len(paths), sample=dict(part='refusal', paths=len(paths)))
 
+def native_inv_call(ctx, x):
+    f = core.nfn(ctx.bdir, CFG, INV)
+    def body():
+        a = ctypes.c_uint64(x); r = ctypes.c_uint64(0); f(ctypes.byref(r), ctypes.byref(a)); return r.value
+    return core.forked(body, timeout=20)
+
 def ob_inv_entry(ctx):
+    try: r = ob_inv_entry_special(ctx)
+    except (Unsupported, AttributeError, TypeError, KeyError, z3.Z3Exception) as e: r = inconc('%s: %s' % (type(e).__name__, e), structural=True)
+    if r.get('structural'):
+        g = inv_generic(ctx); g['detail'] = '[loop shape not the textbook one (%s); structure-independent check] %s' % (r['detail'][:120], g.get('detail', '')); return g
+    return r
+def ob_inv_step(ctx):
+    try: r = ob_inv_step_special(ctx)
+    except (Unsupported, AttributeError, TypeError, KeyError, z3.Z3Exception) as e: r = inconc('%s: %s' % (type(e).__name__, e), structural=True)
+    if r.get('structural'):
+        g = inv_generic(ctx); g['detail'] = '[loop shape not the textbook one (%s); structure-independent check] %s' % (r['detail'][:120], g.get('detail', '')); return g
+    return r
+
+def ob_inv_entry_special(ctx):
     """on the non-refusing path the loop is entered with (t, r, newt, newr) = (0, p, 1, can(a)), which satisfies the invariant"""
-    a, H, paths = inv_run(ctx, 'entry'); seen = 0
+    try: a, H, paths = inv_run(ctx, 'entry')
+    except Unsupported as e: return inconc(str(e), structural=True)
+    seen = 0
     for p in paths:
         if p.status != 'ok': continue
         kind, vals, asm, _ = p.result
         if kind == 'exit':
             # loop skipped: only allowed if infeasible (can(a) == 0 contradicts the refusal)
             r = smt.prove(lambda tr: z3.BoolVal(False), assumptions=list(p.pc), timeout=30)
-            if r.status == 'sat': return viol('inv/skip', 'Euclid loop skipped for a=%#x' % r.model.get('a', 0), replay=dict(event='skip'))
+            if r.status == 'sat': return inconc('a path returns without entering the loop (a=%#x)' % r.model.get('a', 0), structural=True)
             continue
         seen += 1; vs = list(vals.values())
         def goal(tr):
             A = tr.val(a); cana = z3.If(A >= P, A - P, A); V = [tr.val(tobv(v, 64)) for v in vs]
             return z3.And(z3.Or([v == 0 for v in V]), z3.Or([v == P for v in V]), z3.Or([v == 1 for v in V]), z3.Or([v == cana for v in V]), cana != 0, cana < P)
         r = smt.prove(goal, assumptions=list(p.pc), timeout=30)
-        if r.status != 'unsat': return inconc('entry state: %s %s' % (r.status, r.info)) if r.status != 'sat' else viol('inv/entry', 'loop entry state is not (0,p,1,can(a)) for a=%#x' % r.model.get('a', 0), replay=dict(event='entry'))
-    if not seen: return inconc('loop header never reached')
+        if r.status != 'unsat': return inconc('entry state: %s %s' % (r.status, r.info)) if r.status != 'sat' else inconc('loop entry state is not (0,p,1,can(a)) for a=%#x' % r.model.get('a', 0), structural=True)
+    if not seen: return inconc('loop header never reached', structural=True)
     # invariant at entry (ground reasoning with symbolic A): 0·A - p = (-1)·p ; 1·A - can(A) ∈ {0, p}
     A = z3.Int('A'); cana = z3.If(A >= P, A - P, A)
     s = z3.Solver(); s.add(A >= 0, A < 2**64, cana != 0); s.add(z3.Not(z3.And(0 * A - P == (-1) * P, z3.Or(1 * A - cana == 0, 1 * A - cana == P), 0 < cana, cana < P)))
     if smt.check(s) != z3.unsat: return inconc('entry invariant')
     return ok('entry state (0, p, 1, can(a)) establishes the invariant with witnesses m1 = -1, m2 in {0,1}', sample=dict(part='entry'))
 
-def ob_inv_step(ctx):
+def ob_inv_step_special(ctx):
     a, H, paths = inv_run(ctx, 'step')
     pre_bv = [z3.ULT(bvv(0, 64), H['newr']), z3.ULT(H['newr'], H['r']), z3.ULE(H['r'], bvv(P, 64)), z3.ULT(H['t'], bvv(P, 64)), z3.ULT(H['newt'], bvv(P, 64))]
     nback = nexit = 0; nq = 0
@@ -174,6 +208,179 @@ def ob_inv_step(ctx):
     if not pratt(): return inconc('Pratt certificate for p failed')
     return ok('%d back-edge and %d exit path(s); %d queries: the body performs one Euclid step (r,newr) -> (newr, r mod newr) and preserves t·a ≡ r, newt·a ≡ newr (mod p) with explicit witnesses; exit returns t with t·a ≡ gcd' % (nback, nexit, nq),
               sample=dict(part='step', back=nback, exit=nexit, invariant='0<newr<r<=p, t,newt<p, t·a-r=m1·p, newt·a-newr=m2·p'))
+
+# ---------------------------------------------------------------- inv, structure-independent fallback
+#  Used when the loop of Goldilocks::inv does not have the shape the specialised obligations above expect (e.g. after an unrolling or a rewrite
+#  on plain integers).  (1) concrete runs through the interpreter record the values of the loop-header phis; from them candidate invariants are
+#  read off: pairs (x, y) with x·a ≡ y (mod p) and range facts; (2) the loop header is havocked and ONE iteration of the real body is executed
+#  symbolically; every back-edge state and every exit must be an element of the Euclid closure of the header state
+#       (A, B) -> (B, A - (Y_A div Y_B)·B)          on pairs A = (x, y) with x·a ≡ y,
+#  which preserves both x·a ≡ y (pure-integer lemma, discharged below) and gcd(Y_A, Y_B) (trusted number theory); an exit must return X_A of a
+#  closure state whose other remainder Y_B is 0, hence Y_A = gcd(p, can(a)) = 1 and X_A·a ≡ 1.  (3) entry establishes the invariant.
+def inv_generic(ctx):
+    w = core.world(ctx.bdir, MODS); w.hooks = dict(w.base_hooks)
+    f = w.funcs[INV]
+    pos = {lab: i for i, lab in enumerate(f.order)}
+    heads = [lab for lab in f.order if sum(1 for ins in f.blocks[lab] if ins.op == 'phi') >= 2
+             and any(pos.get(l, -1) >= pos[lab] for ins in f.blocks[lab] if ins.op == 'phi' for v, l in ins.inc)]      # a phi block with a back edge
+    if not heads: return inconc('generic inv check: no loop header with phis in Goldilocks::inv')
+    # (1) sampling
+    rng = ctx.rng('C10generic'); xs = [1, 2, 3, 5, 7, 10, 2**32, 2**32 + 1, P - 1, P - 2, P + 1, P + 7, 2**64 - 1, 0x123456789abcdef] + [rng.getrandbits(64) for _ in range(30)]
+    samples = {h: [] for h in heads}
+    for x in xs:
+        if x % P == 0: continue
+        w.reset(); w.hooks = dict(w.base_hooks); it = Interp(w); cnt = {h: 0 for h in heads}
+        def mk(h):
+            def lc(it_, prev, newv, env):
+                cnt[h] += 1
+                if cnt[h] <= 8: samples[h].append((x, {k: v for k, v in newv.items() if is_c(v)}))
+                return newv
+            return lc
+        it.loopcut = {(INV, h): mk(h) for h in heads}
+        ro = Obj(8, 'r', 8)
+        try: it.call(INV, [Ptr(ro, 0), Ptr(core.obj_words('a', [x], 8), 0)])
+        except (Violation, Terminated, Unsupported) as e: return inconc('generic inv check: concrete run inv(%#x) ended with %s' % (x, e))
+        if not is_c(ro.cells.get(0)) or (ro.cells[0] * x) % P != 1:
+            return confirm_native(ctx, 'inv', 'concrete interpretation of inv(%#x) returns %s' % (x, ro.cells.get(0)), {'a': x})
+    header = max(heads, key=lambda h: len(samples[h])); S = samples[header]
+    if len(S) < 12: return inconc('generic inv check: loop header reached only %d times in the concrete runs' % len(S))
+    phis = sorted(k for k in S[0][1] if all(k in v for a_, v in S))
+    pairs = []
+    for x_ in phis:
+        for y_ in phis:
+            if x_ == y_: continue
+            if all((v[x_] * (a % P) - v[y_]) % P == 0 for a, v in S) and len({v[y_] for a, v in S}) > 3 and len({v[x_] for a, v in S}) > 3: pairs.append((x_, y_))
+    # keep two disjoint pairs
+    pairs = [pq for pq in pairs if sum(1 for o in pairs if set(o) & set(pq)) == 1]
+    if len(pairs) != 2: return inconc('generic inv check: expected two (coefficient, remainder) pairs with x·a ≡ y at the loop header, found %s among phis %s' % (pairs, phis))
+    (x0, y0), (x1, y1) = pairs
+    rng_c = []
+    for v in (x0, x1):
+        if all(val[v] < P for a, val in S): rng_c.append(('%s < p' % v, v, 'ltp'))
+    for v in (y0, y1):
+        if all(val[v] <= P for a, val in S): rng_c.append(('%s <= p' % v, v, 'lep'))
+        if all(val[v] > 0 for a, val in S): rng_c.append(('%s > 0' % v, v, 'pos'))
+    if all(val[y1] < val[y0] for a, val in S): rng_c.append(('%s < %s' % (y1, y0), (y1, y0), 'lt'))
+    elif all(val[y0] < val[y1] for a, val in S): rng_c.append(('%s < %s' % (y0, y1), (y0, y1), 'lt'))
+    a = core.bv64('a'); H = {n: core.bv64('h_' + n.strip('%')) for n in phis}
+    pw = {ins.res: w.rty(ins.ty).bits for ins in f.blocks[header] if ins.op == 'phi' and w.rty(ins.ty).kind == 'int'}
+    def rng_f(c, vals):
+        lab, v, kind = c
+        if kind == 'ltp': return lambda tr: tr.val(tobv(vals[v], 64)) < P
+        if kind == 'lep': return lambda tr: tr.val(tobv(vals[v], 64)) <= P
+        if kind == 'pos': return lambda tr: tr.val(tobv(vals[v], 64)) > 0
+        return lambda tr: tr.val(tobv(vals[v[0]], 64)) < tr.val(tobv(vals[v[1]], 64))
+    # (2) one symbolic iteration from the havocked header
+    def run(mode):
+        def go(it):
+            asm = []; contracts(w, asm); st = {'n': 0}
+            def lc(it_, prev, newv, env):
+                st['n'] += 1
+                if mode == 'entry': raise LoopCut(dict(newv))
+                if st['n'] == 1: return {k: (H[k] if (k in H and pw.get(k, 64) == 64) else z3.BitVec('h_other_' + k.strip('%'), pw.get(k, 64))) for k in newv}
+                raise LoopCut(dict(newv))
+            it.loopcut = {(INV, header): lc}
+            res = Obj(8, 'result', 8); oa = core.obj_words('a', [a], 8)
+            try:
+                it.call(INV, [Ptr(res, 0), Ptr(oa, 0)]); return ('exit', res.cells.get(0), asm, st['n'])
+            except LoopCut as e: return ('back', e.vals, asm, st['n'])
+        return explore(w, go)
+    class Pr:
+        """a (coefficient, remainder) pair: remainder as an exact 64-bit term, coefficient as a 64-bit term (xbv) or an integer-level expression (xf)"""
+        def __init__(s, xbv, ybv, xf=None, nm=''): s.xbv = xbv; s.ybv = ybv; s.xf = xf or (lambda tr, xbv=xbv: tr.val(xbv)); s.nm = nm
+    def derive(A, B):
+        """Euclid step on pairs: A - q·B with q = Y_A div Y_B (requires Y_B != 0, part of every query that uses it)"""
+        Q = z3.UDiv(A.ybv, B.ybv)
+        xf = lambda tr: A.xf(tr) - (tr.prod(Q, B.xbv)[0] if B.xbv is not None else tr.val(Q) * B.xf(tr))
+        return Pr(None, A.ybv - Q * B.ybv, xf, '(%s - q·%s)' % (A.nm, B.nm))
+    P0 = Pr(H[x0], H[y0], nm='P0'); P1 = Pr(H[x1], H[y1], nm='P1')
+    nq = 0; nback = nexit = 0
+    tm = 120 if ctx.thorough else 45
+    NIA = [dict(limb_min=0, abstract=False, logic=None, share=0.5), dict(limb_min=0, abstract=False, logic='QF_NIA', share=0.5)]
+    def holds(g, base):
+        nonlocal nq
+        nq += 1; return smt.prove(g, assumptions=base, timeout=tm, variants=NIA, bitprecise=False).status == 'unsat'
+    for p_ in run('step'):
+        if p_.status == 'terminated' and p_.result.kind == 'exit': continue
+        if p_.status != 'ok': return confirm_native(ctx, 'inv', 'loop body: %s' % p_.result, path_model(p_.pc))
+        kind, vals, asm, narr = p_.result
+        if narr == 0: continue                       # paths that never reach the loop are judged by the entry obligation
+        base = [rng_f(c, H) for c in rng_c] + list(p_.pc) + asm
+        feas = smt.prove(lambda tr: z3.BoolVal(False), assumptions=base, timeout=20, bitprecise=False); nq += 1
+        if feas.status == 'unsat': continue
+        if kind == 'back':
+            nback += 1
+            N = [Pr(tobv(vals[x0], 64), tobv(vals[y0], 64), nm='N0'), Pr(tobv(vals[x1], 64), tobv(vals[y1], 64), nm='N1')]
+            # justify the new header pairs one Euclid step at a time; justified pairs (with the code's own words as representatives) extend the chain
+            state = [P0, P1]; just = {}; progress = True; steps = 0
+            while progress and len(just) < 2 and steps < 4:
+                progress = False
+                for k, Nk in enumerate(N):
+                    if k in just: continue
+                    for (A, B) in ((state[0], state[1]), (state[1], state[0])):
+                        if holds(lambda tr, A=A, Nk=Nk: z3.And(tr.val(Nk.ybv) == tr.val(A.ybv), (tr.val(Nk.xbv) - A.xf(tr)) % P == 0), base):
+                            just[k] = 'same as %s' % A.nm; Nk.nm = A.nm; state = [Nk if s_ is A else s_ for s_ in state]; progress = True; break
+                        D = derive(A, B)
+                        if holds(lambda tr, B=B: tr.val(B.ybv) != 0, base) and holds(lambda tr, D=D, Nk=Nk: z3.And(tr.val(Nk.ybv) == tr.val(D.ybv), (tr.val(Nk.xbv) - D.xf(tr)) % P == 0), base):
+                            just[k] = D.nm; Nk.nm = 'N%d' % k; state = [B, Nk]; progress = True; steps += 1; break
+                    if progress: break
+            if len(just) < 2 or not (set(id(s_) for s_ in state) == set(id(n_) for n_ in N)) or steps == 0:
+                return confirm_native(ctx, 'inv', 'a back edge of the inversion loop does not lead to a state reachable by Euclid steps from the header state (pairs %s; justified %s)' % (pairs, just), path_model(p_.pc))
+            for c in rng_c:
+                r = smt.prove(rng_f(c, vals), assumptions=base, timeout=tm, bitprecise=False); nq += 1
+                if r.status != 'unsat': return inconc('generic inv check: candidate invariant "%s" not shown inductive (%s)' % (c[0], r.status))
+            if not holds(lambda tr: tr.val(N[0].ybv) + tr.val(N[1].ybv) < tr.val(H[y0]) + tr.val(H[y1]), base):
+                return inconc('generic inv check: the sum of the remainders is not shown to decrease on a back edge')
+        else:
+            nexit += 1; res = tobv(vals, 64); found = None
+            chains = []
+            for (A, B) in ((P0, P1), (P1, P0)):
+                cur = (A, B); chains.append(cur)
+                for d in range(2): cur = (cur[1], derive(cur[0], cur[1])); chains.append(cur)
+            for (A, B) in chains:
+                for (U, V) in ((A, B), (B, A)):
+                    if holds(lambda tr, U=U, V=V: z3.And(tr.val(V.ybv) == 0, (tr.val(res) - U.xf(tr)) % P == 0), base): found = (U.nm, V.nm); break
+                if found: break
+            if not found: return confirm_native(ctx, 'inv', 'an exit of the inversion loop does not return the coefficient paired with the last non-zero remainder of a state reachable by Euclid steps', path_model(p_.pc))
+    if not (nback and nexit): return inconc('generic inv check: loop body paths: %d back, %d exit' % (nback, nexit))
+    # (3) entry
+    nent = 0
+    for p_ in run('entry'):
+        if p_.status == 'terminated' and p_.result.kind == 'exit': continue
+        if p_.status != 'ok': return confirm_native(ctx, 'inv', 'before the loop: %s' % p_.result, path_model(p_.pc))
+        kind, vals, asm, narr = p_.result
+        base = list(p_.pc) + asm
+        feas = smt.prove(lambda tr: z3.BoolVal(False), assumptions=base, timeout=20, bitprecise=False); nq += 1
+        if feas.status == 'unsat': continue
+        if kind == 'exit':
+            res = tobv(vals, 64)
+            r = smt.prove(lambda tr: (tr.prod(res, a)[0] - 1) % P == 0, assumptions=base, timeout=tm, variants=NIA, bitprecise=False); nq += 1
+            if r.status == 'sat': return confirm_native(ctx, 'inv', 'inv returns without entering its loop with a value that is not the inverse', r.model)
+            if r.status != 'unsat': return inconc('generic inv check: return before the loop: %s' % r.status)
+            continue
+        nent += 1; ex0, ey0, ex1, ey1 = (tobv(vals[k], 64) for k in (x0, y0, x1, y1))
+        def gent(tr):
+            A = tr.val(a); Y0 = tr.val(ey0); Y1 = tr.val(ey1)
+            return z3.And((tr.prod(ex0, a)[0] - Y0) % P == 0, (tr.prod(ex1, a)[0] - Y1) % P == 0,
+                          z3.Or(z3.And(Y0 == P, 0 < Y1, Y1 < P), z3.And(Y1 == P, 0 < Y0, Y0 < P)))
+        r = smt.prove(gent, assumptions=base, timeout=tm, variants=NIA, bitprecise=False); nq += 1
+        if r.status == 'sat': return confirm_native(ctx, 'inv', 'the loop is entered in a state that does not satisfy x·a ≡ y with remainders {p, v}, 0 < v < p', r.model)
+        if r.status != 'unsat': return inconc('generic inv check: entry state: %s' % r.status)
+        for c in rng_c:
+            r = smt.prove(rng_f(c, vals), assumptions=base, timeout=tm, bitprecise=False); nq += 1
+            if r.status != 'unsat': return inconc('generic inv check: candidate invariant "%s" does not hold at loop entry (%s)' % (c[0], r.status))
+    if not nent: return inconc('generic inv check: loop header not reached from the entry')
+    # pure-integer lemma behind the closure step
+    xa, ya, xb, yb, A_, m1, m2, K, q = z3.Ints('xa ya xb yb A m1 m2 K q')
+    sv = z3.Solver(); sv.set('timeout', 60000); sv.add(xa * A_ - ya == m1 * P, xb * A_ - yb == m2 * P); sv.add(z3.Not((xa - q * xb + K * P) * A_ - (ya - q * yb) == (m1 - q * m2 + K * A_) * P)); nq += 1
+    if smt.check(sv) != z3.unsat: return inconc('generic inv check: closure lemma')
+    if not pratt(): return inconc('Pratt certificate for p failed')
+    return ok('structure-independent check: header %s, pairs %s with x·a ≡ y, %d range invariants (%s) read off %d concrete header states and proved inductive; %d back-edge and %d exit path(s) land in the Euclid closure; %d queries'
+              % (header, pairs, len(rng_c), ', '.join(c[0] for c in rng_c), len(S), nback, nexit, nq), sample=dict(part='generic', pairs=[list(p) for p in pairs], invariants=[c[0] for c in rng_c]))
+
+def structural(res):
+    """a specialised obligation ended because the code does not have the expected shape (never a verdict about the property)"""
+    return res['status'] != 'proved' and res.get('structural')
 
 def ob_inv_wrapper(ctx):
     """inv(const Element&) and div are wrappers: interpret them over the inv contract"""
@@ -227,6 +434,7 @@ def ob_exp(ctx):
         kind, vals, asm = p.result
         if kind != 'back': return inconc('exp: loop header not reached from entry')
         r = smt.prove(lambda tr: z3.And((tr.val(tobv(vals['res'], 64)) - 1) % P == 0, tr.val(tobv(vals['base'], 64)) == tr.val(B0), tr.val(tobv(vals['exp'], 64)) == tr.val(E0)), assumptions=list(p.pc), timeout=30)
+        if r.status == 'sat': return confirm_native(ctx, 'exp', 'exp does not enter its loop with (result, base, exponent) = (1, B, E)', r.model)
         if r.status != 'unsat': return inconc('exp entry: %s' % r.status)
     # step / exit from a havocked header.  pw(b,e) := POW(b mod p, e); axioms instantiated at the header state:
     def axioms(tr):
@@ -272,6 +480,28 @@ def confirm_native(ctx, which, text, model):
     cands = [v % 2**64 for v in model.values()] + [1, 2, 3, 5, 7, 10, 255, 2**32, 2**32 + 1, P - 1, P - 2, P + 2, 2**63, 2**64 - 1, 0x123456789abcdef]
     if which == 'inv':
         f = core.nfn(ctx.bdir, CFG, INV)
+        # operands with long remainder sequences (p/a close to the golden ratio, and ratios of consecutive Fibonacci numbers): step-count limits show up here
+        import math
+        phi_ = (1 + 5 ** 0.5) / 2; base_ = int(P / phi_); longs = []
+        fa, fb = 1, 1
+        while fb < 2**64: fa, fb = fb, fa + fb
+        g0, g1 = fa, fb
+        for _ in range(12):
+            longs.append((P * g0 // g1) % 2**64); longs.append((P * g0 // g1 + 1) % 2**64); g0, g1 = g1 - g0, g0
+        cf = P * 0x9E3779B97F4A7C15 >> 64      # p·(φ-1) with 64-bit precision
+        longs += [cf + d for d in range(-3000, 3001)]
+        def batch():
+            bad = []
+            for x in longs:
+                if x % P == 0 or not (0 < x < 2**64): continue
+                a = ctypes.c_uint64(x); r = ctypes.c_uint64(0); f(ctypes.byref(r), ctypes.byref(a))
+                if (r.value * x) % P != 1: bad.append((x, r.value))
+                if len(bad) >= 3: break
+            return bad
+        br = core.forked(batch, timeout=120)
+        if br[0] == 'ok' and br[1]:
+            x, rv = br[1][0]
+            return viol('inv', '%s; native: inv(%#x) -> %#x, inv(a)·a = %d (operand with a long remainder sequence)' % (text, x, rv, (rv * x) % P), replay=dict(kind='inv-value', a=x))
         for x in cands:
             if x % P == 0: continue
             def body(x=x):
@@ -281,8 +511,8 @@ def confirm_native(ctx, which, text, model):
                 return viol('inv', '%s; native: inv(%#x) -> %s, inv(a)·a = %s' % (text, x, res, (res[1] * x) % P if res[0] == 'ok' else 'n/a'), replay=dict(kind='inv-value', a=x))
     else:
         f = core.nfn(ctx.bdir, CFG, EXP)
-        for b in cands[:12] + [2**64 - 2**31 + 1, 2**64 - 5]:
-            for e in [0, 1, 2, 3, 5, 6, 7, 8, 12, 255, 2**32 + 5, 2**64 - 1] + [v % 2**64 for v in model.values()][:4]:
+        for b in [0, P] + cands[:12] + [2**64 - 2**31 + 1, 2**64 - 5]:
+            for e in [0, 1, 2, 3, 5, 6, 7, 8, 12, 255, 2**32 + 5, 2**64 - 1, P - 1, P - 2, P, 2 * (P - 1) % 2**64, 2**63, 2**32 - 1, 2**32] + [v % 2**64 for v in model.values()][:4]:
                 def body(b=b, e=e):
                     r = ctypes.c_uint64(0); f(ctypes.byref(r), ctypes.c_uint64(b), ctypes.c_uint64(e)); return r.value
                 res = core.forked(body, timeout=20)
@@ -291,7 +521,11 @@ def confirm_native(ctx, which, text, model):
 
 def obligations(ctx):
     from . import C03
-    return [Ob('inv/refusal', ob_inv_refusal), Ob('inv/entry', ob_inv_entry), Ob('inv/step', ob_inv_step), Ob('inv+div/wrappers', ob_inv_wrapper), Ob('exp', ob_exp)] + C03.contract_obs(ctx)
+    import os
+    obs = [Ob('inv/refusal', ob_inv_refusal), Ob('inv/entry', ob_inv_entry), Ob('inv/step', ob_inv_step), Ob('inv+div/wrappers', ob_inv_wrapper), Ob('exp', ob_exp)]
+    # thorough tier: the structure-independent check runs in addition to the specialised one (two independent arguments for the same loop)
+    if ctx.thorough or os.environ.get('GV_C10_GENERIC') == '1': obs.append(Ob('inv/generic', inv_generic, timeout=1500))
+    return obs + C03.contract_obs(ctx)
 
 def validate(ctx):
     """concrete: native inv/exp vs interpreter vs python pow"""
